@@ -292,6 +292,74 @@ fn atomics(env: &Env) {
     at!(usize, "usize");
 }
 
+/// Atomic store/load through views whose BASE is skewed (offset / get_slice / split_at by 0..8
+/// bytes): acceptance must follow the alignment of the ADDRESS, not of the offset. A wrongly
+/// accepted misaligned access forms a misaligned `&Atomic*` (abort in checked builds), so every
+/// (type, skew) batch runs in a forked child.
+fn atomics_skewed(env: &Env) {
+    use crate::common::fork::{self, Exit};
+    let ptr = env.arena.ptr as usize;
+    let len = env.arena.len;
+    macro_rules! at {
+        ($T:ty, $tn:expr) => {
+            for skew in 0..=8usize {
+                out::case(7000 + skew as u64, jobj! {"op" => format!("atomic-skewed<{}> skew {}", $tn, skew)});
+                let ex = fork::run(20, || {
+                    // SAFETY: arena valid for its length.
+                    let vs = unsafe { VolatileSlice::new(ptr as *mut u8, len) };
+                    let sub = match skew % 3 {
+                        0 => vs.offset(skew).unwrap(),
+                        1 => vs.get_slice(skew, len - skew).unwrap(),
+                        _ => vs.split_at(skew).unwrap().1,
+                    };
+                    let n = std::mem::size_of::<$T>();
+                    let mut bad = String::new();
+                    for off in 8..24usize {
+                        let aligned = (ptr + skew + off) % n == 0;
+                        let val: $T = (0x1112131415161718u64 as $T) ^ (off as $T);
+                        for ord in [Ordering::Relaxed, Ordering::SeqCst] {
+                            let r = sub.store::<$T>(val, off, ord);
+                            let back = sub.load::<$T>(off, ord);
+                            let ok = match (aligned, &r, &back) {
+                                (true, Ok(()), Ok(b)) => *b == val,
+                                (false, Err(_), Err(_)) => true,
+                                _ => false,
+                            };
+                            if !ok && bad.len() < 300 {
+                                bad.push_str(&format!("off {} address%{}={} store_ok={} load_ok={}; ", off, n, (ptr + skew + off) % n, r.is_ok(), back.is_ok()));
+                            }
+                        }
+                        // typed atomic reference: same rule
+                        let ar = sub.get_atomic_ref::<<$T as vm_memory::AtomicAccess>::A>(off);
+                        if ar.is_ok() != aligned && bad.len() < 300 {
+                            bad.push_str(&format!("get_atomic_ref off {} accepted={} aligned={}; ", off, ar.is_ok(), aligned));
+                        }
+                    }
+                    bad.into_bytes()
+                });
+                let how = ["offset", "get_slice", "split_at"][skew % 3];
+                match ex {
+                    Exit::Ok(b) if b.is_empty() => {}
+                    Exit::Ok(b) => v(&format!("atomic-skewed/{}/acceptance-does-not-follow-address-alignment", $tn), jobj! {"skew" => skew, "derived_by" => how, "mismatches" => String::from_utf8_lossy(&b).to_string()}),
+                    Exit::Signal(sig) => v(&format!("atomic-skewed/{}/crash-signal-{}", $tn, sig), jobj! {"skew" => skew, "derived_by" => how}),
+                    Exit::Panic(m) => v(&format!("atomic-skewed/{}/panic", $tn), jobj! {"skew" => skew, "derived_by" => how, "panic" => m}),
+                    other => out::note("C06/atomic-skewed/harness", jobj! {"exit" => J::dbg(&other)}),
+                }
+                out::key(&format!("atomic-skewed|{}|skew{}|{}", $tn, skew, how), true);
+                out::eval(16 * 2 + 16);
+                out::count("skewed_atomic_batches", 1);
+            }
+        };
+    }
+    at!(u8, "u8");
+    at!(u16, "u16");
+    at!(u32, "u32");
+    at!(u64, "u64");
+    at!(i16, "i16");
+    at!(i64, "i64");
+    at!(usize, "usize");
+}
+
 #[repr(align(8))]
 struct A8([u8; 8]);
 fn pad8(b: &[u8]) -> [u8; 8] {
@@ -490,6 +558,9 @@ pub fn run(args: &Args) {
     }
     if let Err(p) = guarded(|| atomics(&env)) {
         v(&format!("panic/atomics/{}", panic_sig(&p)), J::s(p));
+    }
+    if !cfg!(miri) {
+        atomics_skewed(&env);
     }
     if !cfg!(miri) {
         tearing(args.u64("tear", 200_000));
